@@ -914,6 +914,198 @@ theorem no_app_between_kexinit_and_newkeys_with_errors (ls : List ELabel) (e : E
 example : (erun einit [.ok .kexinit, .ok .kexmsg, .ok (.submit 0), .finishErr]).map (fun e => (e.s.wire, e.err))
     = some ([.kexinit, .kexmsg], true) := by decide
 
+/-! ## bounded buffers: releasing the read loop before the flush cannot deadlock -/
+
+/-- **no_deadlock_release_before_flush**: with the order of the code (`request.done` before the flush) a state in which
+    nothing can move is a state in which both closing sections are finished and both buffers are drained — for any
+    queue lengths, any buffer capacity ≥ 1, any buffer contents: there is no deadlock state at all -/
+theorem no_deadlock_release_before_flush (s : DSt) (hc : 0 < s.cap) (h : dStuck true s) : dDone s := by
+  have ph : ∀ i, (s.e i).phase = .idle := by
+    intro i
+    cases hp : (s.e i).phase with
+    | idle => rfl
+    | exch => have := h (.release i); simp [dstep, hp] at this
+    | flushing =>
+      exfalso
+      by_cases hz : (s.e i).toFlush = 0
+      · have := h (.flushDone i); simp [dstep, hp, hz] at this
+      · by_cases hr : s.ch i < s.cap
+        · have := h (.flushOne i)
+          simp [dstep, hp, hr] at this
+          omega
+        · -- buffer full: the peer's read loop is free (the peer is not in `exch`, else `release` would be enabled)
+          have hne : (s.e (!i)).phase ≠ .exch := by
+            intro he; have := h (.release (!i)); simp [dstep, he] at this
+          have hfree : readerFree true (s.e (!i)).phase = true := by
+            cases hq : (s.e (!i)).phase <;> simp [readerFree, hq] at hne ⊢
+          have := h (.consume (!i))
+          simp [dstep, hfree] at this
+          omega
+  intro i
+  refine ⟨ph i, ?_⟩
+  have hfree : readerFree true (s.e (!i)).phase = true := by simp [readerFree, ph (!i)]
+  by_cases hz : s.ch i = 0
+  · exact hz
+  · have := h (.consume (!i))
+    simp [dstep, hfree] at this
+    omega
+
+/-- every step makes progress towards the end: runs are finite (at most `dMeasure` steps) -/
+theorem dstep_measure (early : Bool) (s s' : DSt) (l : DLabel) (h : dstep early s l = some s') :
+    dMeasure s' < dMeasure s := by
+  cases l with
+  | release i =>
+    simp only [dstep] at h
+    split at h
+    · rename_i hp
+      simp only [Option.some.injEq] at h; subst h
+      have hp' : (s.e i).phase = .exch := by simpa using hp
+      cases i <;> simp [dMeasure, setE, hp', phaseWeight]
+    · simp at h
+  | flushOne i =>
+    simp only [dstep] at h
+    split at h
+    · rename_i hc
+      simp only [Option.some.injEq] at h; subst h
+      simp only [Bool.and_eq_true, decide_eq_true_eq] at hc
+      obtain ⟨⟨_, hpos⟩, _⟩ := hc
+      cases i <;> simp [dMeasure, setE, setCh] <;> omega
+    · simp at h
+  | flushDone i =>
+    simp only [dstep] at h
+    split at h
+    · rename_i hc
+      simp only [Option.some.injEq] at h; subst h
+      have hp' : (s.e i).phase = .flushing := by
+        have := (Bool.and_eq_true _ _).mp hc; simpa using this.1
+      cases i <;> simp [dMeasure, setE, hp', phaseWeight]
+    · simp at h
+  | consume j =>
+    simp only [dstep] at h
+    split at h
+    · rename_i hc
+      simp only [Option.some.injEq] at h; subst h
+      simp only [Bool.and_eq_true, decide_eq_true_eq] at hc
+      obtain ⟨_, hpos⟩ := hc
+      cases j <;> simp [dMeasure, setCh] at hpos ⊢ <;> omega
+    · simp at h
+
+theorem drun_length (early : Bool) : ∀ (ls : List DLabel) (s s' : DSt), drun early s ls = some s' →
+    dMeasure s' + ls.length ≤ dMeasure s := by
+  intro ls
+  induction ls with
+  | nil => intro s s' h; simp [drun] at h; subst h; simp
+  | cons l ls ih =>
+    intro s s' h
+    simp only [drun] at h
+    cases hs : dstep early s l with
+    | none => simp [hs] at h
+    | some t =>
+      simp only [hs] at h
+      have := ih t s' h
+      have := dstep_measure early s t l hs
+      simp only [List.length_cons]; omega
+
+/-- a closing section is only left with an empty queue -/
+def DInv (s : DSt) : Prop := ∀ i, (s.e i).phase = .idle → (s.e i).toFlush = 0
+
+theorem dinv_step (early : Bool) (s s' : DSt) (l : DLabel) (h : dstep early s l = some s') (hi : DInv s) : DInv s' := by
+  intro k hk
+  cases l with
+  | release i =>
+    simp only [dstep] at h
+    split at h
+    · simp only [Option.some.injEq] at h; subst h
+      by_cases e : k = i
+      · subst e; simp [setE] at hk
+      · simp [setE, e] at hk ⊢; exact hi k hk
+    · simp at h
+  | flushOne i =>
+    simp only [dstep] at h
+    split at h
+    · rename_i hc
+      simp only [Option.some.injEq] at h; subst h
+      have hp : (s.e i).phase = .flushing := by
+        simp only [Bool.and_eq_true] at hc; simpa using hc.1.1
+      by_cases e : k = i
+      · subst e; simp [setE, setCh, hp] at hk
+      · simp [setE, setCh, e] at hk ⊢; exact hi k hk
+    · simp at h
+  | flushDone i =>
+    simp only [dstep] at h
+    split at h
+    · rename_i hc
+      simp only [Option.some.injEq] at h; subst h
+      have hz : (s.e i).toFlush = 0 := by
+        have := (Bool.and_eq_true _ _).mp hc; simpa using this.2
+      by_cases e : k = i
+      · subst e; simp [setE, hz]
+      · simp [setE, e] at hk ⊢; exact hi k hk
+    · simp at h
+  | consume j =>
+    simp only [dstep] at h
+    split at h
+    · simp only [Option.some.injEq] at h; subst h
+      simp [setCh] at hk ⊢; exact hi k hk
+    · simp at h
+
+/-- **progress, end to end**: start with both endpoints inside the key exchange, any queue lengths q0, q1 and any buffer
+    capacity ≥ 1. Every run is finite, and a run that cannot be extended has flushed both queues completely, drained
+    both buffers and left both closing sections. -/
+theorem rekey_flush_completes (cap q0 q1 : Nat) (hc : 0 < cap) (ls : List DLabel) (s : DSt)
+    (h : drun true ⟨fun i => ⟨.exch, if i then q1 else q0⟩, fun _ => 0, cap⟩ ls = some s) (hst : dStuck true s) :
+    dDone s ∧ (∀ i, (s.e i).toFlush = 0) ∧ ls.length ≤ 4 + 2 * q0 + 2 * q1 := by
+  have hcap : s.cap = cap := by
+    have gen : ∀ (ls : List DLabel) (a b : DSt), drun true a ls = some b → b.cap = a.cap := by
+      intro ls
+      induction ls with
+      | nil => intro a b h; simp [drun] at h; subst h; rfl
+      | cons l ls ih =>
+        intro a b h
+        simp only [drun] at h
+        cases hs : dstep true a l with
+        | none => simp [hs] at h
+        | some t =>
+          simp only [hs] at h
+          rw [ih t b h]
+          cases l <;> (simp only [dstep] at hs; split at hs <;> simp at hs <;> subst hs <;> simp [setE, setCh])
+    simpa using gen ls _ s h
+  have hd := no_deadlock_release_before_flush s (by rw [hcap]; exact hc) hst
+  have hinv : DInv s := by
+    have gen : ∀ (ls : List DLabel) (a b : DSt), DInv a → drun true a ls = some b → DInv b := by
+      intro ls
+      induction ls with
+      | nil => intro a b hi h; simp [drun] at h; subst h; exact hi
+      | cons l ls ih =>
+        intro a b hi h
+        simp only [drun] at h
+        cases hs : dstep true a l with
+        | none => simp [hs] at h
+        | some t => simp only [hs] at h; exact ih t b (dinv_step true a t l hs hi) h
+    exact gen ls _ s (by intro i hi; simp at hi) h
+  refine ⟨hd, fun i => hinv i (hd i).1, ?_⟩
+  have := drun_length true ls _ s h
+  simp [dMeasure, phaseWeight] at this
+  omega
+
+/-- **the other order deadlocks**: if the read loop were released only after the flush, then with full buffers and
+    packets left to flush on both sides nothing can move any more although nothing is finished -/
+theorem deadlock_if_release_after_flush :
+    ∃ s : DSt, 0 < s.cap ∧ dStuck false s ∧ ¬ dDone s ∧
+      ∃ ls, drun false ⟨fun _ => ⟨.exch, 2⟩, fun _ => 0, 1⟩ ls = some s := by
+  refine ⟨⟨fun _ => ⟨.flushing, 1⟩, fun _ => 1, 1⟩, by decide, ?_, ?_, ?_⟩
+  · intro l
+    cases l with
+    | release i => cases i <;> rfl
+    | flushOne i => cases i <;> rfl
+    | flushDone i => cases i <;> rfl
+    | consume j => cases j <;> rfl
+  · intro h; have := (h true).1; simp at this
+  · refine ⟨[.release false, .release true, .flushOne false, .flushOne true], ?_⟩
+    simp only [drun, dstep, setE, setCh]
+    simp
+    constructor <;> funext k <;> cases k <;> simp
+
 /-! ## non-vacuity: receive side, wake-up, error release -/
 
 -- the receiver of the run above: app packets before, around and after a key exchange arrive in order
